@@ -117,6 +117,11 @@ func run(t *testing.T, r *rep.Report, c cfg, lens []int) {
 			}
 		}()
 		synctest.Test(t, func(*testing.T) {
+			// the bound channel: the lowest number for datagram clients, the highest one for stream clients
+			chanN := uint16(0x4000)
+			if c.stream {
+				chanN = 0x7FFF
+			}
 			cn, nA, nA2, nB := "c1", "A", "A2", "B"
 			if c.v6 {
 				cn, nA, nA2, nB = "c6", "V6", "V62", "V6b"
@@ -130,7 +135,7 @@ func run(t *testing.T, r *rep.Report, c cfg, lens []int) {
 			defer w.Close()
 			x := &vtx.Exec{W: w, M: vtx.NewModel(w.Cfg)}
 			for _, ev := range []vtx.Event{{K: "alloc", C: cn, L: -1}, {K: "perm", C: cn, Peers: []string{nA}, L: -1},
-				{K: "chan", C: cn, N: 0x4000, Peers: []string{nB}, L: -1}} {
+				{K: "chan", C: cn, N: chanN, Peers: []string{nB}, L: -1}} {
 				if v := x.Apply(ev); v != nil {
 					r.Violate(rep.Violation{Oracle: "harness", Signature: "harness:setup:" + v.Sig, Detail: v.Detail})
 
@@ -151,7 +156,7 @@ func run(t *testing.T, r *rep.Report, c cfg, lens []int) {
 					// socket toward a peer. The datagrams concerned are excused; the final probe that follows is not.
 					if rs := w.Net.UDPAt(relay.String()); rs != nil {
 						rs.WriteErr, rs.WriteErrOnce = syscall.ENOBUFS, true
-						c1.Send(wire.ChannelData(0x4000, []byte("lost-to-a-transient-write-error"), c.stream))
+						c1.Send(wire.ChannelData(chanN, []byte("lost-to-a-transient-write-error"), c.stream))
 						synctest.Wait()
 					}
 					if !c.stream && w.SrvSock != nil {
@@ -182,7 +187,7 @@ func run(t *testing.T, r *rep.Report, c cfg, lens []int) {
 					if xl := map[bool]int{false: 12, true: 24}[c.v6]; xl+4+(l+3)/4*4 <= 0xFFFF {
 						c1.Send(wire.New(wire.Send, wire.Indication, w.NextTx()).XorAddr(wire.AttrXORPeerAddress, pa.Addr.IP, pa.Addr.Port).Attr(wire.AttrData, pl).Bytes())
 					}
-					c1.Send(wire.ChannelData(0x4000, pl, c.stream))
+					c1.Send(wire.ChannelData(chanN, pl, c.stream))
 					_, _ = pa.Sock.WriteTo(pl, relay)
 					_, _ = pb.Sock.WriteTo(pl, relay)
 					_, _ = pa2.Sock.WriteTo(pl, relay)
@@ -239,7 +244,7 @@ func run(t *testing.T, r *rep.Report, c cfg, lens []int) {
 							fail("wrong-peer-attribution:data-indication", d.Peer)
 						}
 					case "peer->chandata":
-						if d.Chan != 0x4000 {
+						if d.Chan != chanN {
 							fail("wrong-peer-attribution:channel", fmt.Sprint(d.Chan))
 						}
 					}
